@@ -159,9 +159,9 @@ func hwLeanBytes(s string) string {
 
 // hwBlock translates a statement block over one mutable state.
 type hwBlock struct {
-	x   *hw
-	p   *packages.Package
-	fn  *ast.FuncDecl
+	x  *hw
+	p  *packages.Package
+	fn *ast.FuncDecl
 	// kind of the state: "req" (*http.Request -> Req), "shot" (*http.Request as BaseGun.Shoot sees it -> Shot), "hdr" (http.Header -> Hdr)
 	kind string
 	// the Go object that IS the state (the request pointer or the header map)
@@ -2017,6 +2017,42 @@ func (x *hw) connectShape(out *strings.Builder) {
 	fmt.Fprintf(out, "/-- regenerated from `components/guns/http/connect.go`: NewConnectGun opens its tunnels at `TargetResolved` (the target itself\nwhen nothing was resolved); the dial function connects to that address and sends `CONNECT <address the transport asks for>`\n(`litN` = N-th parameter of the function literal) -/\ndef connectShape : List String := %s\n\n", hwStrList(rows))
 }
 
+// jsonDecodeSites: where the http/json decoder takes its entities from (a json.Decoder over the file: entries may span lines)
+func (x *hw) jsonDecodeSites(out *strings.Builder) {
+	p := x.pkgs["components/providers/http/decoders"]
+	var rows []string
+	for _, fn := range []string{"Scan", "readArray"} {
+		fd := hwFunc(p, "jsonlineDecoder", fn)
+		if fd == nil {
+			x.failf(p, nil, "jsonlineDecoder.%s not found", fn)
+			continue
+		}
+		d := &hwDesc{x: x, p: p, fn: fd, labels: map[types.Object]string{}, shallow: true}
+		ast.Inspect(fd.Body, func(n ast.Node) bool {
+			c, ok := n.(*ast.CallExpr)
+			if !ok {
+				return true
+			}
+			for _, a := range c.Args {
+				un, ok := a.(*ast.UnaryExpr)
+				if !ok || un.Op != token.AND {
+					continue
+				}
+				t := p.TypesInfo.TypeOf(un.X)
+				if t == nil {
+					continue
+				}
+				ts := t.String()
+				if strings.HasSuffix(ts, ".entity") || strings.HasSuffix(ts, "[]"+p.PkgPath+".entity") || strings.HasSuffix(ts, "decoders.entity") {
+					rows = append(rows, fn+": "+d.desc(c))
+				}
+			}
+			return true
+		})
+	}
+	fmt.Fprintf(out, "/-- regenerated from `jsonlineDecoder.Scan` / `readArray`: the calls that fill an `entity` (a json.Decoder over the whole file) -/\ndef jsonDecodeSites : List String := %s\n\n", hwStrList(rows))
+}
+
 func (x *hw) factories(out *strings.Builder) {
 	p := x.pkgs["components/phttp/import"]
 	fd := hwFunc(p, "", "Import")
@@ -2095,6 +2131,7 @@ func httpwireExtra(t *tr) string {
 	x.transportWiring(&out)
 	x.shootResponse(&out)
 	x.clientDo(&out)
+	x.jsonDecodeSites(&out)
 	x.connectShape(&out)
 	x.factories(&out)
 	return out.String()
